@@ -12,6 +12,11 @@
 //	    permutation, map hash seeds and (empty) process-global state,
 //
 // and every generation is compared with the first one: ordered list of (name, Any type, bytes).
+// Any byte difference is a violation. explain.go decides its key: the istio code site when the
+// difference is exactly the freedom one known root cause introduces, a generic (type, field path,
+// kind) key otherwise. `determ repro <name>` (repro.go) shows every known cause on a minimal
+// hand-written world; `determ probe ...` (probe.go) is a development aid that prints the distinct
+// variants of one resource of a generated world.
 package main
 
 import (
@@ -30,7 +35,7 @@ import (
 
 const (
 	quickWorlds    = 42
-	thoroughWorlds = 1500
+	thoroughWorlds = 800
 )
 
 // tierParams: every (world, proxy) is generated envs*pcs*gens times in-process and rounds/stride
@@ -45,7 +50,7 @@ type tierParams struct {
 
 func params(tier string) tierParams {
 	if tier == "thorough" {
-		return tierParams{envs: 4, pcs: 2, gens: 2, rounds: 20, stride: 4} // 16 + 5 generations
+		return tierParams{envs: 4, pcs: 2, gens: 2, rounds: 16, stride: 4} // 16 + 4 generations
 	}
 	return tierParams{envs: 3, pcs: 2, gens: 2, rounds: 5, stride: 1} // 12 + 5 generations
 }
@@ -55,37 +60,50 @@ func main() {
 		helperMain(os.Args[2:])
 		return
 	}
+	if len(os.Args) > 1 && os.Args[1] == "probe" {
+		probeMain(os.Args[2:])
+		return
+	}
+	if len(os.Args) > 1 && os.Args[1] == "repro" {
+		reproMain(os.Args[2:])
+		return
+	}
 	vh.Main(vh.Prop{
 		ID:    "C17",
 		Level: "exploration",
 		Rule: "case world-<i> = one PRNG world (ServiceEntries in 3 namespaces incl. one hostname exported from >=2 namespaces with equal creation timestamps, registry " +
 			"services with endpoints in 2-4 shards and up to 6 localities, VirtualServices with >=2 header/withoutHeaders/queryParams/JWT-claim matchers per match, several " +
-			"DestinationRules/VirtualServices/Gateways/Sidecars/PeerAuthentications/AuthorizationPolicies/RequestAuthentications/Telemetries/EnvoyFilters/WasmPlugins claiming one " +
+			"DestinationRules/VirtualServices/Gateways/Sidecars/PeerAuthentications/AuthorizationPolicies/RequestAuthentications/Telemetries/EnvoyFilters/TrafficExtensions claiming one " +
 			"host or workload with equal timestamps; every object validated by the real validators) x 3 proxies (2 sidecars, 1 router). The real CDS/EDS/LDS/RDS/ECDS/NDS " +
-			"generators run envs x pcs x gens times in-process (same PushContext, fresh PushContext, environment with permuted config/service/endpoint-shard insertion order) " +
-			"and, in case xproc-<r>, once per world in each of R fresh helper processes; every generation is compared with the first (ordered name+bytes per type). " +
+			"generators run envs x pcs x gens times in-process (same PushContext, fresh PushContext, environment with permuted config/service/endpoint-shard insertion order; names, " +
+			"creation timestamps and resource versions are part of the state and identical everywhere) and, in case xproc-<r>, once per world in each of R fresh helper processes; " +
+			"every generation is compared with the first: ordered list of (name, Any type URL, bytes) per type, exactly as the generators returned them. Any byte difference is a violation. " +
+			"Its key is the istio code site (cause=...) when the difference disappears once the freedom that ONE known root cause introduces is normalised away (explain.go: e.g. sort " +
+			"RouteMatch.query_parameters; causes are tried only on the xDS type / proxy kind / input shape their code site needs), or when the world contains an exact tie and the " +
+			"difference is about the hostname the tie decides; every other difference keeps the generic key (proxy kind, type, field path, kind of difference). " +
 			"A world is non-trivial when >=3 tie shapes were planted, every proxy got clusters and listeners and >=2 generations were compared; distinct by hash of the reference digests.",
 		Assumptions: []string{
 			"trusted base: Go protobuf decoding for locating a difference (the verdict itself is a byte comparison of what the generators returned)",
 			"core.NewConfigGenTest (in-memory config store, ServiceEntry controller, memory registry, EndpointIndex) stands for istiod's state; the XDS cache is disabled so every generation really runs",
 			"EDS/RDS/ECDS subscriptions are handed to the generators as a set, as the server stores them (WatchedResource.ResourceNames)",
 			"the order of endpoints inside one shard report is part of the state (never permuted); shard reports, services and config objects are permuted",
+			"attribution of a difference to a known cause decodes both resources, normalises and re-encodes them with Go protobuf deterministic marshalling; it selects the violation key only, never the verdict",
 		},
 		Anchors: []string{
 			"pilot/pkg/model/push_context.go", "pilot/pkg/model/sidecar.go", "pilot/pkg/model/virtualservice.go", "pilot/pkg/model/destination_rule.go",
 			"pilot/pkg/networking/core/listener.go", "pilot/pkg/networking/core/cluster.go", "pilot/pkg/networking/core/httproute.go",
 			"pilot/pkg/xds/endpoints/endpoint_builder.go", "pilot/pkg/model/config.go",
 		},
-		MinNontrivial: func(t string) int { return map[string]int{"quick": 30, "thorough": 1200}[t] },
-		Batches:       func(t string) int { return map[string]int{"quick": 6, "thorough": 8}[t] },
-		Parallel:      func(t string) int { return map[string]int{"quick": 6, "thorough": 8}[t] },
+		MinNontrivial: func(t string) int { return map[string]int{"quick": 30, "thorough": 640}[t] },
+		Batches:       func(t string) int { return map[string]int{"quick": 6, "thorough": 6}[t] },
+		Parallel:      func(t string) int { return map[string]int{"quick": 6, "thorough": 6}[t] },
 		TimeoutSec:    func(t string) int { return map[string]int{"quick": 600, "thorough": 3000}[t] },
 		Run:           run,
 	})
 }
 
 type refEntry struct {
-	ties    []tieToken
+	shape   *inputShape
 	proxies []proxyDef
 	out     map[string]genOut // proxy name -> reference generation
 	err     string
@@ -152,7 +170,7 @@ func (rn *runner) worldCase(i int) {
 		w := worldRng(c, i)
 		if e == 0 {
 			ref.proxies = w.Proxies
-			ref.ties = w.Ties
+			ref.shape = shapeOf(w)
 			if w.AmbSvc {
 				c.Count("worlds_with_service_ties", 1)
 			}
@@ -212,7 +230,7 @@ func (rn *runner) worldCase(i int) {
 						} else if e == 0 {
 							lv = "fresh-pushcontext"
 						}
-						rn.compare(i, pd, lv, r0, out, ref.ties, nil)
+						rn.compare(i, pd, lv, r0, out, ref.shape, nil)
 					}
 				}
 			}
@@ -241,8 +259,9 @@ func (rn *runner) worldCase(i int) {
 
 // compare checks one generation against the reference, type by type. When CDS (LDS) differs so
 // that the derived EDS (RDS, ECDS) subscription differs, the dependent type is skipped: its
-// difference would only be a consequence.
-func (rn *runner) compare(world int, pd proxyDef, level string, ref, got genOut, ties []tieToken, extra map[string]any) {
+// difference would only be a consequence. The verdict is the byte comparison; the known-cause
+// normalisers of explain.go only decide under which key a difference is reported.
+func (rn *runner) compare(world int, pd proxyDef, level string, ref, got genOut, sh *inputShape, extra map[string]any) {
 	c := rn.c
 	c.Count("comparisons", 1)
 	c.Count("comparisons:"+level, 1)
@@ -262,6 +281,7 @@ func (rn *runner) compare(world int, pd proxyDef, level string, ref, got genOut,
 	if strings.Join(e1, "\x00") != strings.Join(e2, "\x00") {
 		skip["ECDS"] = true
 	}
+	kind := ref.kind()
 	for _, t := range typeOrder {
 		if skip[t] {
 			c.Count("skipped_dependent_type", 1)
@@ -271,11 +291,13 @@ func (rn *runner) compare(world int, pd proxyDef, level string, ref, got genOut,
 		for _, r := range ref[t] {
 			c.Count("bytes_compared", len(r.Value))
 		}
-		for _, d := range diffLists(t, ref[t], got[t]) {
-			key := "proxy=" + ref.kind() + " " + d.key()
-			if cause := involvedTie(d, ties); cause != "" {
-				key = "involves=" + cause + " " + key
-			}
+		a, b := ref[t], got[t]
+		cur := diffLists(t, a, b)
+		if len(cur) == 0 {
+			continue
+		}
+		c.Count("generations_differing:"+t, 1)
+		report := func(key string, d *difference, what string) {
 			c.Count("differences", 1)
 			c.SetAdd("difference_levels", key+" @"+level)
 			if dir := os.Getenv("DETERM_DUMP"); dir != "" && d.rawA != nil {
@@ -285,7 +307,7 @@ func (rn *runner) compare(world int, pd proxyDef, level string, ref, got genOut,
 			}
 			sk := fmt.Sprintf("%d|%s", world, key)
 			if rn.seen[sk] {
-				continue
+				return
 			}
 			rn.seen[sk] = true
 			payload := map[string]any{"world": world, "seed": c.Seed, "proxy": pd.Name, "proxy_type": string(pd.Type), "proxy_ns": pd.NS, "level": level, "difference": d}
@@ -297,38 +319,50 @@ func (rn *runner) compare(world int, pd proxyDef, level string, ref, got genOut,
 				payload["minimal"] = rn.minimise(world, pd, d.key())
 				payload["minimal_key"] = d.key()
 			}
-			c.Violation(key, fmt.Sprintf("world %d proxy %s (%s in %s): %s generation differs from the first one at level %s: resource %q, %s [%s]: %s <> %s",
-				world, pd.Name, pd.Type, pd.NS, t, level, d.Resource, d.Path, d.Kind, clip(d.A, 300), clip(d.B, 300)), payload)
+			c.Violation(key, fmt.Sprintf("world %d proxy %s (%s in %s): %s generation differs from the first one at level %s%s: resource %q, %s [%s]: %s <> %s",
+				world, pd.Name, pd.Type, pd.NS, t, level, what, d.Resource, d.Path, d.Kind, clip(d.A, 300), clip(d.B, 300)), payload)
 		}
-	}
-}
-
-// involvedTie attributes a difference to a known tie when the resource name, the names of the
-// enclosing messages or the differing values mention a hostname or address whose owner is
-// decided by that tie.
-func involvedTie(d *difference, ties []tieToken) string {
-	if len(ties) == 0 || d.Kind == "order" || d.Kind == "resource-order" {
-		// which service owns a hostname does not explain a pure reordering
-		return ""
-	}
-	hay := []string{d.Resource, d.A, d.B}
-	hay = append(hay, d.Ctx...)
-	if d.Kind == "resource-set" {
-		hay = append(hay, d.NamesA...)
-		hay = append(hay, d.NamesB...)
-	}
-	cause := ""
-	for _, t := range ties {
-		for _, h := range hay {
-			if strings.Contains(h, t.Token) {
-				if t.Cause == "service-tie" {
-					return t.Cause
+		// known causes: the differences that disappear under the cause's normaliser are reported under the cause
+		nc := &normCtx{typ: t, kind: kind, shape: sh}
+		for i := range knownCauses {
+			kc := &knownCauses[i]
+			if !kc.applies(nc) {
+				continue
+			}
+			a2, b2, changed := applyCause(kc, nc, a, b)
+			if !changed {
+				continue
+			}
+			next := diffLists(t, a2, b2)
+			nk := diffKeySet(next)
+			var gone []*difference
+			for _, d := range cur {
+				if _, still := nk[d.key()]; !still {
+					gone = append(gone, d)
 				}
-				cause = t.Cause
+			}
+			a, b = a2, b2
+			cur = next
+			if len(gone) == 0 {
+				continue
+			}
+			c.Count("explained_by:"+kc.id, len(gone))
+			report(fmt.Sprintf("cause=%s type=%s proxy=%s", kc.id, t, kind), gone[0], " (explained by the known cause "+kc.id+")")
+			if len(cur) == 0 {
+				break
 			}
 		}
+		// residual differences: a tie the world really contains, or unexplained
+		for _, d := range cur {
+			if tc := tieCause(d, sh, pd, kind); tc != "" {
+				c.Count("explained_by:"+tc, 1)
+				report(fmt.Sprintf("cause=%s type=%s proxy=%s field=%s:%s", tc, t, kind, d.KeyPath, d.Kind), d, " (the world contains the tie "+tc+")")
+				continue
+			}
+			c.Count("unexplained_differences", 1)
+			report("proxy="+kind+" "+d.key(), d, "")
+		}
 	}
-	return cause
 }
 
 func clip(s string, n int) string {
